@@ -115,6 +115,7 @@ def resolve(case, nalloc):
         if n * spec["p1024"] // 1024 > 800:
             gc["p1024"] = max(1, 800 * 1024 // n)
     gc["heapcheck_every"] = c.pop("heapcheck_every", 0)
+    gc["max_forced"] = 1000
     c["gc"] = gc
     return c
 
